@@ -4,7 +4,7 @@
    Language: a string belongs to the PEP 440 version language iff it is the rendering of a well-formed spelling (parse tree). *)
 From Coq Require Import List Arith NArith Bool Lia.
 Import ListNotations.
-Require Import VParse VComplete VTop VTop2 VDec Py VMeaning SpecModel SpecParse SpecSound SpecContains VWf VKeyEq VAscii.
+Require Import VParse VComplete VTop VTop2 VDec Py VMeaning SpecModel SpecParse SpecSound SpecContains SpecSem SpecLink VWf VKeyEq VAscii.
 Open Scope N_scope.
 
 Definition In_version_language (s : str) : Prop := exists sp, wf_spelling sp /\ render sp = s.
@@ -40,3 +40,12 @@ Proof.
   exists t. destruct (C12_spec_sound s t E) as (A & B & C & D & F). auto.
 Qed.
 Print Assumptions C12_specifier_sound.
+
+(* 5. the operator / version-form table in semantic terms: the stored text of an accepted specifier is a version Version() accepts -
+      with a local label or a trailing .* only for == and !=, at least two release components and no local label for ~=,
+      no local label for <, <=, >, >=, arbitrary text for === *)
+Theorem C12_specifier_form_table s sp : Specifier s = Some sp -> exists f, interp sp = Some f /\ form_ok (sp_op sp) f.
+Proof. exact (Specifier_interp s sp). Qed.
+Print Assumptions C12_specifier_form_table.
+(* NOT PROVED: completeness of the specifier scanner (every operator + admitted form is accepted) - covered by the generated and
+   bounded-exhaustive correspondence streams. *)
